@@ -64,7 +64,10 @@ impl FieldAttributeBuilder {
                     ));
                 }
 
-                expression = Some(auto_adjust_expr(name_value.value.clone(), Some(ty)));
+                expression = Some(auto_adjust_expr(
+                    crate::common::r#type::ungroup_expr(&name_value.value).clone(),
+                    Some(ty),
+                ));
             },
             Meta::List(list) => {
                 let result =
